@@ -627,11 +627,11 @@ func ruleDecoderReps(c *Ctx, r *Report, prefix string) {
 		return
 	}
 	want := map[string]repOutcome{
-		"isMatch=0":                                   {[4]string{"r0", "r1", "r2", "r3"}, "-", "updateStateLiteral", "literal"},
-		"isMatch=1,isRep=0":                           {[4]string{"new", "r0", "r1", "r2"}, "new", "updateStateMatch", "lenCodec"},
-		"isMatch=1,isRep=1,isRepG0=0,isRepG0Long=0":   {[4]string{"r0", "r1", "r2", "r3"}, "r0", "updateStateShortRep", ""},
-		"isMatch=1,isRep=1,isRepG0=0,isRepG0Long=1":   {[4]string{"r0", "r1", "r2", "r3"}, "r0", "updateStateRep", "repLenCodec"},
-		"isMatch=1,isRep=1,isRepG0=1,isRepG1=0":       {[4]string{"r1", "r0", "r2", "r3"}, "r1", "updateStateRep", "repLenCodec"},
+		"isMatch=0":         {[4]string{"r0", "r1", "r2", "r3"}, "-", "updateStateLiteral", "literal"},
+		"isMatch=1,isRep=0": {[4]string{"new", "r0", "r1", "r2"}, "new", "updateStateMatch", "lenCodec"},
+		"isMatch=1,isRep=1,isRepG0=0,isRepG0Long=0":       {[4]string{"r0", "r1", "r2", "r3"}, "r0", "updateStateShortRep", ""},
+		"isMatch=1,isRep=1,isRepG0=0,isRepG0Long=1":       {[4]string{"r0", "r1", "r2", "r3"}, "r0", "updateStateRep", "repLenCodec"},
+		"isMatch=1,isRep=1,isRepG0=1,isRepG1=0":           {[4]string{"r1", "r0", "r2", "r3"}, "r1", "updateStateRep", "repLenCodec"},
 		"isMatch=1,isRep=1,isRepG0=1,isRepG1=1,isRepG2=0": {[4]string{"r2", "r0", "r1", "r3"}, "r2", "updateStateRep", "repLenCodec"},
 		"isMatch=1,isRep=1,isRepG0=1,isRepG1=1,isRepG2=1": {[4]string{"r3", "r0", "r1", "r2"}, "r3", "updateStateRep", "repLenCodec"},
 	}
